@@ -82,12 +82,6 @@ def size_alphabet(peer_mtu, peer_mps):
     return out
 
 
-def size_sequences(alpha_len, max_len):
-    """Index sequences into an alphabet of alpha_len entries, length 1..max_len."""
-    for k in range(1, max_len + 1):
-        yield from itertools.product(range(alpha_len), repeat=k)
-
-
 # ---------------------------------------------------------------------------
 # one execution
 # ---------------------------------------------------------------------------
@@ -120,6 +114,10 @@ class Tap:
             return real_send(connection_handle, wire.translate(sdu, False, SHIM_DELTA))
 
         def on_l2cap_pdu(connection, cid, pdu):
+            # a PDU longer than 65535 bytes never arrives (see transport_pdu_over_65535): keep the FIFO pairing in step
+            q = mon.inflight[side]
+            while q and q[0].get('kind') == 'data' and 4 + len(q[0]['payload']) > 65535 and (q[0]['cid'] != cid or q[0]['payload'] != pdu):
+                q.pop(0)
             d = mon.delivered(side)
             if d is not None and shim is None:
                 # harness self-check: FIFO pairing of sent and delivered frames
@@ -152,6 +150,8 @@ def run_case(case, prefix=None, fp=None, want_obs=False):
     style = case.get('style', 'yield')
     early = case.get('early', False)
     viol = []
+    over_lanes = set()
+    lost_lanes = set()
     acl = acl_len_for(case)
     with World(2, controller_attrs={0: {'le_acl_data_packet_length': acl}, 1: {'le_acl_data_packet_length': acl}}) as w:
         w.power_on()
@@ -186,9 +186,9 @@ def run_case(case, prefix=None, fp=None, want_obs=False):
 
             return sink
 
-        async def writer(ch, key):
-            blob, off = data[key], 0
-            for n in lanes[key]:
+        async def writer(ch, key, skip=0):
+            blob, off = data[key], sum(lanes[key][:skip])
+            for n in lanes[key][skip:]:
                 ch.write(blob[off : off + n])
                 off += n
                 written[key] = off
@@ -204,7 +204,12 @@ def run_case(case, prefix=None, fp=None, want_obs=False):
             server_chans.append(ch)
             ch.sink = make_sink((i, 'c2s'))
             if early and lanes.get((i, 's2c')):
-                writer_tasks.append(loop.create_task(writer(ch, (i, 's2c'))))
+                # the application writes from its connection handler, as soon as it is handed the open channel
+                key = (i, 's2c')
+                n = lanes[key][0]
+                ch.write(data[key][:n])
+                written[key] = n
+                writer_tasks.append(loop.create_task(writer(ch, key, skip=1)))
 
         w.devices[1].create_l2cap_server(mk_spec(case['s'], PSM), on_server_channel)
 
@@ -213,7 +218,9 @@ def run_case(case, prefix=None, fp=None, want_obs=False):
                 return [await c_conn.create_l2cap_channel(mk_spec(case['c'], PSM))]
             return await w.devices[0].l2cap_channel_manager.create_enhanced_credit_based_channels(c_conn, mk_spec(case['c'], PSM), nchan)
 
-        sigbase = {'kind': kind, 'shim': shim}
+        sigbase = {'kind': 'le_coc' if kind == 'coc' else 'enhanced', 'shim': shim}
+        if early:
+            sigbase['phase'] = 'write_from_connection_handler'
         if early and sched is not None:
             sched.active = True
         setup = loop.create_task(open_channels())
@@ -268,46 +275,57 @@ def run_case(case, prefix=None, fp=None, want_obs=False):
                 dr = mch.dirs[sender_side] if mch is not None else None
                 want = data[key]
                 have = bytes(got[key])
-                wire_ok = dr is not None and bytes(dr.stream) == want
                 lsig = dict(sigbase, dir=direction)
-                stalled = not done[key] or len(have) < len(want)
-                if have != want:
-                    if want.startswith(have):
-                        cls = 'short'
-                    elif have.startswith(want):
-                        cls = 'long'
-                    else:
-                        cls = 'differs'
-                    first = next((j for j, (a, b) in enumerate(zip(have, want)) if a != b), min(len(have), len(want)))
-                    if not (cls == 'short' and dr is not None and bytes(dr.stream) == have and want.startswith(have)):
-                        # not a pure stall (a pure stall is reported below as a progress failure with its cause)
-                        viol.append(
-                            (
-                                'stream_mismatch',
-                                dict(lsig, what='sink_bytes_differ', cls=cls, wire_ok=wire_ok),
-                                f'{direction} ch{i}: wrote {len(want)} bytes ({lanes[key]}), sink got {len(have)} (SDUs {sdus_in[key][:8]}); first difference at {first}; '
-                                f'wire stream {"==" if wire_ok else "!="} written; {mon.trace()}',
-                            )
+                if dr is not None and dr.max_pdu > 65535:
+                    over_lanes.add(key)
+                onwire = bytes(dr.stream) if dr is not None else b''
+                wire_ok = onwire == want
+                # (1) the bytes carried by the data frames are a prefix of the bytes written (sender side of the stream)
+                if not want.startswith(onwire):
+                    first = next((j for j, (a, b) in enumerate(zip(onwire, want)) if a != b), min(len(onwire), len(want)))
+                    viol.append(
+                        (
+                            'wire_stream_mismatch',
+                            dict(lsig, what='wire_bytes_differ'),
+                            f'{direction} ch{i}: bytes carried by the data frames differ from the bytes written {lanes[key]} at offset {first} '
+                            f'(SDUs on the wire {dr.sdus[:8]}): {mon.trace()}',
                         )
-                if dr is not None and not wire_ok and not bytes(want).startswith(bytes(dr.stream)):
-                    viol.append(('wire_stream_mismatch', dict(lsig, what='wire_bytes_differ'), f'{direction} ch{i}: bytes carried by the data frames differ from the bytes written: {mon.trace()}'))
-                if stalled:
+                    )
+                # (2) what the sink got is exactly what the completed SDUs on the wire carry (receiver side)
+                expect_sink = onwire[: dr.complete_len] if dr is not None else b''
+                if have != expect_sink and key not in over_lanes:
+                    first = next((j for j, (a, b) in enumerate(zip(have, expect_sink)) if a != b), min(len(have), len(expect_sink)))
+                    cls = 'lost' if len(have) < len(expect_sink) else ('extra' if len(have) > len(expect_sink) else 'altered')
+                    viol.append(
+                        (
+                            'stream_mismatch',
+                            dict(lsig, what='sink_differs_from_wire', cls=cls),
+                            f'{direction} ch{i}: completed SDUs on the wire carry {len(expect_sink)} bytes ({dr.sdus[:8] if dr else None}), the sink got {len(have)} '
+                            f'(SDUs {sdus_in[key][:8]}); first difference at {first}; written {lanes[key]}; {mon.trace()}',
+                        )
+                    )
+                    if cls == 'lost':
+                        lost_lanes.add(key)
+                # (3) progress: everything written arrives and drain() returns
+                if (not done[key] or len(have) < len(want)) and key not in over_lanes:
                     ledger = (dr.granted - dr.sent) if dr is not None else None
                     if dr is None:
                         cause = 'no_channel_on_wire'
-                    elif len(dr.stream) < written[key] and ledger > 0:
+                    elif len(onwire) < written[key] and ledger > 0:
                         cause = 'sender_idle_with_credits'
-                    elif len(dr.stream) < written[key]:
+                    elif len(onwire) < written[key]:
                         cause = 'sender_out_of_credits'
-                    elif len(have) < len(dr.stream):
-                        cause = 'receiver_dropped'
+                    elif len(have) < len(onwire):
+                        cause = 'receiver_did_not_deliver'
                     else:
                         cause = 'drain_pending'
+                    if cause == 'receiver_did_not_deliver' and key in lost_lanes:
+                        continue  # consequence of the loss already reported for this lane
                     viol.append(
                         (
                             'no_progress',
                             dict(lsig, what='transfer_incomplete', cause=cause),
-                            f'{direction} ch{i}: at quiescence wrote {written[key]}/{len(want)} bytes, on the wire {len(dr.stream) if dr else 0}, at the sink {len(have)}, '
+                            f'{direction} ch{i}: at quiescence wrote {written[key]}/{len(want)} bytes {lanes[key]}, on the wire {len(onwire)}, at the sink {len(have)}, '
                             f'drain() {"returned" if done[key] else "pending"}; wire ledger of the sender {ledger}; {mon.trace()}',
                         )
                     )
@@ -315,7 +333,21 @@ def run_case(case, prefix=None, fp=None, want_obs=False):
             viol.append((check, dict(sigbase, **sig), msg + ' | ' + mon.trace()))
         for e in tap.harness_errors:
             viol.append(('harness_tap', {'what': 'tap'}, e))
-        for msg, exc in loop.collect_exceptions():
+        excs = loop.collect_exceptions()
+        if over_lanes:
+            # an L2CAP PDU longer than 65535 bytes was sent (K-frame payload > 65531): the virtual controller hands a
+            # received PDU to its host as ONE HCI ACL packet (controller.py on_link_acl_data, 'TODO: should fragment'),
+            # whose 16-bit length field cannot hold it.  Transport defect (C05 territory), reported under its own signature.
+            lost = [e for e in excs if 'link.py' in str(e[0]) and e[1].startswith('error(')]
+            excs = [e for e in excs if e not in lost]
+            viol.append(
+                (
+                    'transport_pdu_over_65535',
+                    {'what': 'l2cap_pdu_gt_65535_not_carried_by_virtual_controller'},
+                    f'lanes {sorted(over_lanes)} sent an L2CAP PDU of more than 65535 bytes; {len(lost)} were dropped by the receiving controller: {lost[:1]} | {mon.trace()}',
+                )
+            )
+        for msg, exc in excs:
             viol.append(('exception', dict(sigbase, what='exception', exc=exc.split('(')[0]), f'{msg}: {exc} | {mon.trace()}'))
         for t in writer_tasks:
             if t.done() and not t.cancelled() and t.exception() is not None:
@@ -329,7 +361,7 @@ def run_case(case, prefix=None, fp=None, want_obs=False):
                 obs.append((ch.ccid, ch.scid, side, tuple(dr.frames), tuple(dr.credit_frames), dr.min_ledger))
                 cov[(ch.enhanced, side)] = (len(dr.frames), len(dr.sdus), len(dr.credit_frames), dr.min_ledger, dr.zero_credit_waits)
         res = {'viol': viol, 'cov': cov, 'n_data': mon.n_data, 'n_sig': mon.n_sig, 'steps': loop.steps}
-        res['obs'] = [obs, sorted(set(v[0] for v in viol)), mon.log if want_obs else len(mon.log)]
+        res['obs'] = [obs, sorted(set(v[0] for v in viol)), mon.log if want_obs else core.digest(mon.log)]
         if sched is not None:
             res['points'] = sched.points
             res['fp'] = sched.fp
@@ -357,24 +389,37 @@ def param_configs(k):
     return out
 
 
-def cases_for(kind, shim, c, s, max_len, style='yield'):
-    """Both directions use the sequence with the same index, each relative to its own receiver."""
+MULTI_WRITE_FRAME_LIMIT = 300
+
+
+def est_frames(size, peer_mps):
+    return (size + 2 + peer_mps - 1) // peer_mps
+
+
+def cases_for(kind, shim, c, s, max_len, style='yield', min_len=1):
+    """Both directions use the sequence with the same index, each relative to its own receiver.  Sequences of more
+    than one write only use sizes that need <= MULTI_WRITE_FRAME_LIMIT frames (the 64 KiB-over-23-byte-frames writes
+    appear alone)."""
     ac = size_alphabet(s[0], s[1])  # client writes, server receives
     as_ = size_alphabet(c[0], c[1])
-    n = min(len(ac), len(as_))
-    # alphabets may have different lengths after de-duplication: iterate the longer, wrap the shorter
-    m = max(len(ac), len(as_))
-    for seq in size_sequences(m, max_len):
-        yield {
-            'kind': kind,
-            'shim': shim,
-            'c': c,
-            's': s,
-            'wc': [ac[i % len(ac)] for i in seq],
-            'ws': [as_[i % len(as_)] for i in seq],
-            'style': style,
-        }
-    del n
+    for k in range(min_len, max_len + 1):
+        if k == 1:
+            a1, a2 = ac, as_
+        else:
+            a1 = [v for v in ac if est_frames(v, s[1]) <= MULTI_WRITE_FRAME_LIMIT]
+            a2 = [v for v in as_ if est_frames(v, c[1]) <= MULTI_WRITE_FRAME_LIMIT]
+        # alphabets may differ in length after de-duplication: iterate the longer, wrap the shorter
+        m = max(len(a1), len(a2))
+        for seq in itertools.product(range(m), repeat=k):
+            yield {
+                'kind': kind,
+                'shim': shim,
+                'c': c,
+                's': s,
+                'wc': [a1[i % len(a1)] for i in seq],
+                'ws': [a2[i % len(a2)] for i in seq],
+                'style': style,
+            }
 
 
 def w_params(chunk):
@@ -411,24 +456,40 @@ def run_sched(params, prefix, fp):
 
 
 def sched_configs(quick):
+    """(case, deviation bound).  Credit-starved channels: every SDU is segmented, each frame or two needs a credit
+    round trip, traffic flows both ways, so data frames, credit frames and the writers' task steps interleave."""
     out = []
     tight = [(23, 23, 1), (23, 23, 2), (100, 23, 3)]
     for kind, shim in (('coc', 'off'), ('coc', 'client'), ('enh1', 'off'), ('enh2', 'off'), ('enh2', 'server')):
         for t in tight:
             mtu, mps, _ = t
-            # every SDU is segmented, several credit round trips, traffic in both directions
             wcs = [[2 * mtu + 1], [mtu + 1, 1]] if quick else [[2 * mtu + 1], [mtu + 1, 1], [mps, mtu, 1]]
             for wseq in wcs:
-                if kind != 'coc' and t != tight[0] and quick:
+                if quick and (t == tight[1] or (kind != 'coc' and t != tight[0]) or (kind, shim) == ('enh2', 'server')):
                     continue
-                out.append({'kind': kind, 'shim': shim, 'c': t, 's': t, 'wc': wseq, 'ws': wseq[::-1], 'style': 'yield', 'acl': 27})
+                out.append(({'kind': kind, 'shim': shim, 'c': t, 's': t, 'wc': wseq, 'ws': wseq[::-1], 'style': 'yield', 'acl': 27}, 1))
+    if not quick:
+        # two deviations, on the shortest credit-starved transfers
+        for kind in ('coc', 'enh1'):
+            for t in ((23, 23, 1), (23, 23, 2)):
+                out.append(({'kind': kind, 'shim': 'off', 'c': t, 's': t, 'wc': [24, 1], 'ws': [24], 'style': 'yield', 'acl': 27}, 2))
+    return out
+
+
+def early_configs(quick):
+    out = []
+    for kind in KINDS:
+        for t in (DEF, (23, 23, 1)) if quick else (DEF, (23, 23, 1), (100, 23, 2)):
+            for ws in ([10, 20], [t[0] + 1]) if quick else ([10], [10, 20], [t[0] + 1]):
+                out.append(({'kind': kind, 'shim': 'off', 'c': t, 's': t, 'wc': [5], 'ws': ws, 'style': 'yield', 'early': True, 'acl': 27}, 1 if quick or kind == 'enh2' else 2))
     return out
 
 
 def w_sched(arg):
-    case, bound, max_runs = arg
-    st = core.Stats('sched')
+    name, case, bound, max_runs = arg
+    st = core.Stats(name)
     explore.explore(run_sched, case, bound, 1, st, max_runs=max_runs, label='')
+    st.count(f'configs_bound_{bound}')
     return st
 
 
@@ -451,9 +512,17 @@ def run(ctx: core.Context) -> int:
                 for c, s in param_configs(1):
                     cases.extend(cases_for(kind, shim, c, s, 1 if quick else 2))
         # write styles: burst (all writes in one task step) and drain-between-writes, on the single-parameter configs
-        for style in ('burst', 'drain'):
+        # (a single write is the same run in every style)
+        for style in ('burst',) if quick else ('burst', 'drain'):
             for c, s in param_configs(1):
-                cases.extend(cases_for('coc', 'off', c, s, 2 if quick else 3, style))
+                if quick and (c[2], s[2]) == (DEF[2], DEF[2]) and (c, s) != (DEF, DEF):
+                    continue  # quick: default and credit-limited configurations only
+                cases.extend(cases_for('coc', 'off', c, s, 2 if quick else 3, style, min_len=2))
+        if quick:
+            # the 64 KiB-SDU-over-23-byte-frames transfers (thousands of frames, ~2 s each) are left to the thorough tier
+            n0 = len(cases)
+            cases = [cs for cs in cases if max(est_frames(v, cs['s'][1]) for v in cs['wc']) <= 1000 and max(est_frames(v, cs['c'][1]) for v in cs['ws']) <= 1000]
+            ctx.sub('params').notes.append(f'quick tier leaves {n0 - len(cases)} single-write cases of more than 1000 frames to the thorough tier')
         # cost-sort so the big transfers are spread over the workers
         cases.sort(key=lambda cs: -(sum(cs['wc']) + sum(cs['ws'])))
         ctx.log(f'params: {len(cases)} cases')
@@ -462,12 +531,19 @@ def run(ctx: core.Context) -> int:
             st.merge(r)
         ctx.log('params:', st.summary())
     if not only or 'sched' in only:
-        cfgs = sched_configs(quick)
-        bound = 1 if quick else 2
         st = ctx.sub('sched')
-        for r in core.pmap(w_sched, [(c, bound, 1500 if quick else 12000) for c in cfgs], ctx.jobs):
+        items = [('sched', c, b, 20000) for c, b in sched_configs(quick)]
+        items.sort(key=lambda it: -it[2])
+        for r in core.pmap(w_sched, items, ctx.jobs):
             st.merge(r)
         ctx.log('sched:', st.summary())
+    if not only or 'early' in only:
+        st = ctx.sub('early')
+        items = [('early', c, b, 20000) for c, b in early_configs(quick)]
+        items.sort(key=lambda it: -it[2])
+        for r in core.pmap(w_sched, items, ctx.jobs):
+            st.merge(r)
+        ctx.log('early:', st.summary())
     return core.finish(
         ctx,
         LEVEL,
